@@ -5,6 +5,11 @@
                   the written file as read back by hclsyntax (attribute values evaluated
                   in a nil context, blank lines as WNewline), None = encode panicked.
                   Compared with [map (item_map reread)] of [encode_items].
+   CEncInto dst s v obs : the same into a destination body that is NOT fresh (root body of a
+                  loaded file, body of a block, target of earlier encodings / hand edits);
+                  dst = the items the destination held just before the call (names and
+                  structure; values as null), obs = the items it holds afterwards.
+                  Compared with [encode_into dst].
    CDec s f obs : gohcl.DecodeBody of the parsed file f into a fresh value of type s;
                   obs = None (panic) | Some (sorted diagnostic codes, value when there
                   were no diagnostics).  Compared with [decode]. *)
@@ -66,12 +71,19 @@ Definition sort_z (l : list Z) : list Z := fold_right insert_z [] l.
 
 Inductive ccase :=
 | CEnc (s : sschema) (v : sval) (obs : option (list witem))
+| CEncInto (dst : list witem) (s : sschema) (v : sval) (obs : option (list witem))
 | CDec (s : sschema) (f : afile) (obs : option (list Z * option sval)).
 
 Definition check_c16_case (c : ccase) : bool :=
   match c with
   | CEnc s v obs =>
       match encode_items s v, obs with
+      | Some items, Some o => list_eqb witem_eqb (map (item_map reread) items) o
+      | None, None => true
+      | _, _ => false
+      end
+  | CEncInto dst s v obs =>
+      match encode_into dst s v, obs with
       | Some items, Some o => list_eqb witem_eqb (map (item_map reread) items) o
       | None, None => true
       | _, _ => false
